@@ -34,6 +34,18 @@ declare -A PROPS=(
  [r2-c06-kirsch-kfifo]="C06 C07"
  [r2-c12-grow-start-offset]="C12"
  [r2-c13-leftright-read-decltype-auto]="C13"
+ [r4-c01-he-acquire-if-equal-shared-slot]="C01 C15 C18"
+ [r4-c02-orphan-list-add-stale-next]="C02 C17"
+ [r4-c03-he-dynamic-block-relaxed]="C03 C01"
+ [r4-c04-nikolaev-pop-next-hoisted]="C04"
+ [r4-c08-hashmap-find-start-guard-alias]="C08 C09"
+ [r4-c09-hashmap-erase-it-refind-no-advance]="C09 C08"
+ [r4-c10-vyukov-grow-skip-search]="C10 C11"
+ [r4-c11-vyukov-erase-it-last-ext-no-publish]="C11 C10"
+ [r4-c15-geb-acquire-if-equal-null-leak]="C15 C02 C01"
+ [r4-c16-seqlock-load-retry-waits]="C16 C14"
+ [r4-c17-geb-adopt-skip-epoch-idx]="C17 C01"
+ [r4-c18-hp-dynamic-reinit-links]="C18 C17"
 )
 if ! git -C /repo diff --quiet -- xenium; then echo "/repo has uncommitted changes under xenium/: refusing"; exit 2; fi
 for d in seeded/*/; do
